@@ -18,7 +18,10 @@ func mapParams(m mapping.IndexMapping) (gamma, offset float64) {
 }
 
 // relAllowance is the tolerance policy of DESIGN.md section 5: a relative
-// allowance eps(v) = 2^-48 + 2^-50 (|ln v| + |offset| ln gamma) on top of alpha.
+// allowance eps(v) = 2^-48 + 2^-49 (|ln v| + |offset| ln gamma) on top of alpha
+// (16 ulps of the value plus 16 ulps of the log-domain quantities that log/exp
+// and the index arithmetic perturb; the linearly interpolated mapping used 77%
+// of a first version with 2^-50, hence 2^-49).
 func relAllowance(m mapping.IndexMapping, v float64) float64 {
 	gamma, offset := mapParams(m)
 	v = math.Abs(v)
@@ -26,7 +29,7 @@ func relAllowance(m mapping.IndexMapping, v float64) float64 {
 	if v > 0 {
 		l = math.Abs(math.Log(v))
 	}
-	return math.Ldexp(1, -48) + math.Ldexp(1, -50)*(l+math.Abs(offset)*math.Log(gamma))
+	return math.Ldexp(1, -48) + math.Ldexp(1, -49)*(l+math.Abs(offset)*math.Log(gamma))
 }
 
 // accFrac returns how much of the allowed error |y-x| uses: <= 1 means y is
